@@ -15,14 +15,29 @@ def load():
         return out
     for ln in open(p):
         ln = ln.strip()
-        m = re.match(r"known:\s+property=(\S+)\s+unit=(\S+)\s+obligation=(\S+)\s*::\s*(.*)$", ln)
+        m = re.match(r"known:\s+property=(\S+)\s+unit=(\S+)\s+obligation=(\S+)\s+(?:input~=(\S+)\s+)?::\s*(.*)$", ln)
         if m:
-            out.append(dict(property=m.group(1), unit=m.group(2), obligation=m.group(3), what=m.group(4)))
+            out.append(dict(property=m.group(1), unit=m.group(2), obligation=m.group(3), input_re=m.group(4), what=m.group(5)))
     return out
 
 
 def match(known, pid, unit, failure):
     for k in known:
-        if k["property"] == pid and k["unit"] == unit and k["obligation"] == failure["id"]:
+        if k["property"] == pid and k["unit"] == unit and k["obligation"] == failure["id"] and not k.get("input_re"):
             return k
     return None
+
+
+def split_grid(known, pid, driver, inputs):
+    """concrete failing inputs of a replay driver: (known findings hit, inputs no `known:` line lists).  A line
+    `known: property=<id> unit=replay:<driver> obligation=replay-grid/<driver> input~=<regex> :: ...` covers exactly the inputs its regex matches."""
+    ks = [k for k in known if k["property"] == pid and k["unit"] == "replay:" + driver and k.get("input_re")]
+    hits, new = [], []
+    for i in inputs:
+        for k in ks:
+            if re.search(k["input_re"], i):
+                hits.append((k, i))
+                break
+        else:
+            new.append(i)
+    return hits, new
